@@ -92,6 +92,10 @@ func RegisterField(t *rapid.T, name string, lo, hi int) modbus.Field {
 	if f.Type == modbus.FieldTypeString {
 		if rapid.IntRange(0, 4).Draw(t, "longstr") == 0 {
 			f.Length = uint8(rapid.IntRange(1, 250).Draw(t, "length_long"))
+			if rapid.Bool().Draw(t, "length_pow2") {
+				// sizes at which implementations switch buffers
+				f.Length = uint8(rapid.SampledFrom([]int{15, 16, 17, 31, 32, 33, 63, 64, 65, 127, 128, 129}).Draw(t, "length_hot"))
+			}
 		} else {
 			f.Length = uint8(rapid.IntRange(1, 12).Draw(t, "length"))
 		}
